@@ -25,12 +25,16 @@ import gen_c10 as G
 
 PROP = "C10"
 RULE = ("regression/known-finding corpus + seeded random symmetric coolers (2..8 bins, 1-3 chromosomes, empty rows, isolated bins, non-zero "
-        "diagonal) x mode (genome-wide, cis, trans) x ignore_diags 0..3 x min_nnz 0..3 x min_count {0,3,8,15} x mad_max 0..3 x blacklist x "
+        "diagonal; count column int, or float64 with dyadic values in (0,1) / > 1 with fractions / mixed) x mode (genome-wide, cis, trans) x "
+        "ignore_diags 0..3 x min_nnz 0..3 x min_count {0,3,8,15,0.5,1.25,2.5} x mad_max 0..3 x blacklist x "
         "tol 1e-2..1e-10 x max_iters {1,2,3,50,200} x x0 (dyadic, NaN, zero) x rescale x chunksize {None,2,5}; non-trivial = some mask active, "
         "or a non-genome-wide mode, or more than one sweep; distinct by input hash")
 TRUSTED = ["np.median/np.log/np.exp accuracy of the MAD filter: exact 4th-power form in the model, float ties (1e-9 in log space) skipped and counted",
            "number of sweeps is observed through the number of calls of the map functor"]
-ASSUMPTIONS = ["counts are non-negative integers; trans_only needs >= 2 chromosomes; max_iters >= 1",
+ASSUMPTIONS = ["counts are non-negative integers or dyadic rationals stored as float64; a float table is evaluated in the model on its integer numerators "
+               "count*den (den a power of two) with min_count*den and tol*den^2, results mapped back by scale/den, var/den^2 (weights, masks, sweeps unchanged); "
+               "the oracle never uses this scaling: it works on the float/Fraction values directly",
+               "trans_only needs >= 2 chromosomes; max_iters >= 1",
                "float results are compared with the exact-rational model at 1e-9 relative; runs whose tested variance is within 1e-6 relative of tol are skipped and counted"]
 RESIDUE = ["float rounding, overflow to inf, accuracy of np.median/np.var/np.log/np.exp (exact-arithmetic model)",
            "sqrt of the rescaling step: theorem stated for every w with w_i^2 * scale = b_i^2"]
